@@ -30,4 +30,16 @@ CLAIMED["C12"] = {
     "text": "Model of LabelSet/ArgumentSet/AAFramework with tombstones, stale row indexes and swap_remove mirrored; kernel-checked: a rejected update returns the unchanged state (err_unchanged). Every run compares ALL observers incl. iteration orders after every operation of random histories against the model, and the model state against an abstract set model (refinement check, executable).",
     "note": "Trusted: Lean kernel; correspondence harness. PARTIAL at this commit: the store invariant and the refinement to the set model are checked by execution on every generated history, not yet proved by induction (planned: store_inv, store_refines).",
     "technique": "Lean 4 model + differential correspondence on update histories; invariant proofs in progress"}
+CLAIMED["C17"] = {
+    "text": "Kernel-checked for ALL solver programs (every Prog, hence every modelled solve site of the 7 solver types, all entry points): an `unknown` reply at the call the run has reached yields `abort` (unknown_aborts), and a run that produced an answer consumed no unknown reply (done_consumed_no_unknown). Tied to the code by injecting Unknown at every SAT-call position through the public factory constructors (the real call must unwind at the call where the Lean program aborts, with no answer) and by end-to-end runs of the crustabri binary against a scripted external solver failing in 5 ways.",
+    "note": "Trusted: Lean kernel; harness (catch_unwind), the fake external solver script, kissat as the honest part of it. The interpreter's abort-on-unknown is the model of SolvingResult::unwrap_model; that every solve site goes through it is what the trace correspondence checks on each run. Process-level failures (crash, no output, garbage) enter through the reply parser (see C16).",
+    "technique": "Lean 4 proof over the Prog interface + fault injection at every call position"}
+CLAIMED["C18"] = {
+    "text": "Kernel-checked: (1) on the Prog models, for arbitrary replies: CO <= 1 call, ST <= 2 calls per component (st_calls, co_calls); (2) at set level for every sound oracle: grow loop maximal and <= |U|-|start|+1 calls, skeptical search correct, never re-examines a candidate, <= |base|+1 calls, range-guided loop ends in a maximal range (pr_grow, pr_skeptical, range_grow). Tied to the code: counted calls = the Lean program's calls on the same replies, and <= the property's bound computed from reference counts per component; runs are cut at 20000 calls.",
+    "note": "PARTIAL: the PR/ID/SST/STG bounds are proved for the abstract set-level procedures; the refinement from the Prog models to them is not yet proved (it is checked by trace correspondence and by the measured bound on every run). Trusted: Lean kernel, Mathlib (Finset), harness counting factory.",
+    "technique": "Lean 4 proofs (call counting on Prog, abstract search procedures) + counted runs against the bound"}
+CLAIMED["C06"] = {
+    "text": "Kernel-checked: any two answers that pass the (proved exact) judge have the same status whatever the configuration (status_config_invariant); the program of a query depends on (solver, encoder, framework, query) only (query_history_invariant); outcomes depend on replies only, not on solver numbering or earlier calls (outcome_world_invariant). Tied to the code by query sequences on one solver object with trace comparison, all encodings x certificate flag, the external backend (kissat through ExternalSatSolver), and a before/after dump of the framework.",
+    "note": "Trusted: Lean kernel; kissat and CaDiCaL assumed sound and complete; harness. 'Querying never modifies the framework' is additionally guaranteed by Rust's type system (&AAFramework) and checked by the dump.",
+    "technique": "Lean 4 proofs + differential runs across configurations and backends"}
 NOT_APPLICABLE = {}
